@@ -32,6 +32,11 @@ def _tlc_gen(prop, outdir, env, simulate=None, seed=None, timeout=1500):
     return res
 
 
+def jvm_env(tier):
+    """short TLC runs are dominated by JVM start-up and JIT: quick tier runs with the C1 compiler only"""
+    return {"JAVA_TOOL_OPTIONS": "-XX:TieredStopAtLevel=1 -XX:ParallelGCThreads=2"} if tier == "quick" else {}
+
+
 def sizes_of(res):
     for line in res.out.splitlines():
         if line.startswith('<<"SIZES", "'):
@@ -43,8 +48,8 @@ def generate(prop, tier, seed, wd, calls, nshard=None, nsim=None):
     """-> (batches, info).  Exhaustive part: NSHARD TLC runs in model-checking mode (states = files);
     sampled part: one `tlc -simulate -seed` run, one file of K sampled arm lists per behaviour."""
     nshard = nshard or (4 if tier == "quick" else 8)
-    nsim = nsim if nsim is not None else (25 if tier == "quick" else 400)
-    base = {"TIER": tier, "CALLS": "1" if calls else "0", "NSHARD": str(nshard), "SHARD": "0", "MODE": "enum"}
+    nsim = nsim if nsim is not None else (15 if tier == "quick" else 150)
+    base = dict(jvm_env(tier), TIER=tier, CALLS="1" if calls else "0", NSHARD=str(nshard), SHARD="0", MODE="enum")
     jobs = []
     with concurrent.futures.ThreadPoolExecutor(max_workers=nshard + 1) as ex:
         for s in range(nshard):
@@ -93,40 +98,64 @@ def parse_check_text(text):
     return res
 
 
+def _split(ms, parts=4):
+    n = len(ms)
+    if n <= parts:
+        return [[m] for m in ms]
+    step = (n + parts - 1) // parts
+    return [ms[k:k + step] for k in range(0, n, step)]
+
+
+def _assemble(header, ms):
+    """header + the functions of ms (specification-produced text); the line numbers of the matches and arms are
+    those of the specification, shifted by the number of lines that were left out"""
+    lines, out = list(header), []
+    for m in ms:
+        shift = (len(lines) + 2) - m["line"]
+        out.append(dict(m, line=m["line"] + shift, armlines=[x + shift for x in m["armlines"]]))
+        lines += m["fn"]
+    return "\n".join(lines) + "\n", out
+
+
 def static_observe(batches, wd, name="static"):
-    """run every batch file through the checker; -> {g: obs} with
-    obs = {nonexh, wits, redundant (set of 1-based arm indices), anomaly}"""
-    cases = [{"id": b["id"], "mode": "check", "diags": True, "files": b["files"]} for b in batches]
-    obs, wall = vlib.run_harness(cases, wd, name=name, timeout=60)
+    """run every batch file through the checker; -> {(batch id, g): obs} with
+    obs = {nonexh, wits, redundant (set of 1-based arm indices)} or {anomaly}.
+    A checker panic / foreign diagnostic hides the verdicts of a whole file: such a file is split (4 ways,
+    repeatedly) until the matches without a verdict are isolated."""
     per = {}
-    solo = []
-    for b, o in zip(batches, obs):
-        r = _attribute(b["matches"], b["files"]["main.abra"], o)
-        if r is None:
-            solo += [(b, m) for m in b["matches"]]
-        else:
-            per.update({(b["id"], m["g"]): r[m["g"]] for m in b["matches"]})
-    n_solo = len(solo)
-    if solo:
-        # a checker panic / foreign diagnostic hides the verdicts of the whole file: re-check each match alone
-        scases, shifted = [], []
-        for b, m in solo:
-            hdr = b["header"]
-            text = "\n".join(hdr + m["fn"]) + "\n"
-            shift = (len(hdr) + 2) - m["line"]
-            mm = dict(m, line=m["line"] + shift, armlines=[x + shift for x in m["armlines"]])
-            shifted.append(mm)
-            scases.append({"id": "%s_%s" % (b["id"], m["g"]), "mode": "check", "diags": True, "files": {"main.abra": text}})
-        sobs, w2 = vlib.run_harness(scases, wd, name=name + "_solo", timeout=60)
-        wall += w2
-        for (b, m), mm, c, o in zip(solo, shifted, scases, sobs):
-            r = _attribute([mm], c["files"]["main.abra"], o)
-            if r is None:
-                per[(b["id"], m["g"])] = {"anomaly": {k: o.get(k) for k in ("check", "check_panic", "check_panic_loc", "check_text", "diags")
-                                                      if o.get(k)}, "solo_text": c["files"]["main.abra"]}
+    pending = []
+    for b in batches:
+        iso = [m for m in b["matches"] if m.get("isolate")]
+        if not iso:
+            pending.append((b, b["matches"], b["files"]["main.abra"], b["matches"]))
+            continue
+        groups = [[m for m in b["matches"] if not m.get("isolate")]] + [[m] for m in iso]
+        for part in groups:
+            if part:
+                t, sh = _assemble(b["header"], part)
+                pending.append((b, part, t, sh))
+    wall, n_files, level = 0.0, 0, 0
+    while pending:
+        cases = [{"id": "%s_%d_%d" % (b["id"], level, k), "mode": "check", "diags": True, "files": {"main.abra": text}}
+                 for k, (b, ms, text, shifted) in enumerate(pending)]
+        obs, w = vlib.run_harness(cases, wd, name="%s_%d" % (name, level), timeout=60)
+        wall += w
+        n_files += len(cases)
+        nxt = []
+        for (b, ms, text, shifted), o in zip(pending, obs):
+            r = _attribute(shifted, text, o)
+            if r is not None:
+                per.update({(b["id"], m["g"]): r[m["g"]] for m in ms})
+            elif len(ms) == 1:
+                per[(b["id"], ms[0]["g"])] = {"anomaly": {k: o.get(k) for k in ("check", "check_panic", "check_panic_loc", "check_text", "diags")
+                                                          if o.get(k)}}
             else:
-                per[(b["id"], m["g"])] = r[m["g"]]
-    return per, {"static_wall_s": round(wall, 1), "files_checked": len(cases), "solo_rechecks": n_solo}
+                for part in _split(ms):
+                    t, sh = _assemble(b["header"], part)
+                    nxt.append((b, part, t, sh))
+        pending = nxt
+        level += 1
+    return per, {"static_wall_s": round(wall, 1), "files_checked": n_files, "split_levels": level - 1}
 
 
 def _attribute(matches, text, o):
@@ -169,8 +198,8 @@ def _attribute(matches, text, o):
 
 # ------------------------------------------------------------------ reported missing patterns -> syntax trees
 class _P:
-    def __init__(self, s):
-        self.s, self.i = s, 0
+    def __init__(self, s, greedy=False):
+        self.s, self.i, self.greedy = s, 0, greedy
 
     def peek(self, t):
         return self.s.startswith(t, self.i)
@@ -229,21 +258,25 @@ class _P:
                         raise ValueError("expected , or )")
             return {"k": "struct", "n": w, "fs": fs}
         if self.eat(" of "):
-            return {"k": "word", "w": w, "args": [self.pat()]}
+            args = [self.pat()]
+            while self.greedy and self.eat(", "):
+                args.append(self.pat())
+            return {"k": "word", "w": w, "args": args}
         return {"k": "word", "w": w, "args": []}
 
 
 def parse_witness(text):
     """`Rect of (_, 0)`, `Point(x = _, y = true)`, `(true, some of _)`, `()`, `_`, `1.0`, `abc` -> tree;
     a pure change of representation, the tree is interpreted by spec/front/AbraMatch.tla (Elab)"""
-    p = _P(text)
-    try:
-        t = p.pat()
-        if p.i != len(text):
-            raise ValueError("trailing input")
-        return t
-    except ValueError:
-        return {"k": "unparsed", "text": text}
+    for greedy in (False, True):       # `C of a, b`: first with one argument after `of`, then with as many as follow
+        p = _P(text, greedy)
+        try:
+            t = p.pat()
+            if p.i == len(text):
+                return t
+        except ValueError:
+            pass
+    return {"k": "unparsed", "text": text}
 
 
 def validate_witnesses(prop, tier, records, wd):
@@ -256,7 +289,7 @@ def validate_witnesses(prop, tier, records, wd):
     if os.path.exists(outf):
         os.remove(outf)
     res = vlib.tlc(os.path.join(vlib.SPEC, "props", "C12W.tla"), timeout=1200, xmx="3g",
-                   env={"TIER": tier, "OBS": obsf, "OUT": outf, "MODE": "enum", "SHARD": "0", "NSHARD": "1", "CALLS": "0",
+                   env={**jvm_env(tier), "TIER": tier, "OBS": obsf, "OUT": outf, "MODE": "enum", "SHARD": "0", "NSHARD": "1", "CALLS": "0",
                         "OUTDIR": wd})
     vlib.tlc_ok(res, "C12W")
     verdicts = vlib.load_ndjson(outf)
@@ -266,64 +299,98 @@ def validate_witnesses(prop, tier, records, wd):
 
 
 # ------------------------------------------------------------------ run-time observation
-def run_accepted(batches, per, wd, name="run"):
-    """for every file: the matches the compiler accepted (no diagnostic) and the specification calls
-    exhaustive are put into one program (header + functions + calls, all specification-produced text);
-    -> [(batch, match, call, printed line or None, run status)]"""
-    cases, plan = [], []
+def run_matches(batches, select, wd, name="run"):
+    """every file: the selected matches that carry calls are put into one program (header + functions + calls, all
+    specification-produced text) and run.  A file that does not compile loses the matches its diagnostics point
+    at (-> rejected) and is retried; any other failure splits the file until single matches remain, which are
+    then run one call per program.  -> rows [(batch, match, call, printed line or None, status)], rejected, info"""
+    pending = []
     for b in batches:
-        ms = [m for m in b["matches"] if m["calls"] and _accepted(per.get((b["id"], m["g"])))]
-        if not ms:
-            continue
-        cases.append(_run_case(b["id"] + "_run", b["header"], ms))
-        plan.append((b, ms))
-    if not cases:
-        return [], {"run_files": 0, "run_wall_s": 0.0, "run_solo": 0}
-    obs, wall = vlib.run_harness(cases, wd, name=name, timeout=60)
-    rows, solo = [], []
-    for (b, ms), o in zip(plan, obs):
-        lines = (o.get("out") or "").split("\n")
-        n = sum(len(m["calls"]) for m in ms)
-        if o.get("compile") == "ok" and o.get("status") == "done" and len(lines) == n + 1 and lines[-1] == "":
-            k = 0
-            for m in ms:
-                for c in m["calls"]:
-                    rows.append((b, m, c, lines[k], "done"))
-                    k += 1
-        else:
-            solo += [(b, m) for m in ms]
-    if solo:
-        # something in the file failed at compile or run time: run every match of it alone, one call per program
-        scases = []
-        for b, m in solo:
-            for j, c in enumerate(m["calls"]):
-                scases.append({"id": "%s_%s_%d" % (b["id"], m["g"], j),
-                               "files": {"main.abra": "\n".join(b["header"] + m["fn"] + [c["stmt"]]) + "\n"}})
-        sobs, w2 = vlib.run_harness(scases, wd, name=name + "_solo", timeout=60)
-        wall += w2
-        k = 0
-        for b, m in solo:
-            for c in m["calls"]:
-                o = sobs[k]
-                k += 1
-                st = o.get("status") if o.get("compile") == "ok" else "compile:" + str(o.get("compile"))
-                out = o.get("out") or ""
-                line = out[:-1] if out.endswith("\n") and out.count("\n") == 1 else None
-                rows.append((b, m, c, line if st == "done" else None, st if st != "done" or line is not None else "output:" + out[:80]))
-    return rows, {"run_files": len(cases), "run_wall_s": round(wall, 1), "run_solo": len(solo)}
+        ms = [m for m in b["matches"] if m["calls"] and select(b, m)]
+        for part in [[m for m in ms if not m.get("isolate")]] + [[m] for m in ms if m.get("isolate")]:
+            if part:
+                pending.append((b, part))
+    rows, rejected = [], []
+    wall, n_files, level, n_single = 0.0, 0, 0, 0
+    while pending:
+        cases, metas = [], []
+        for k, (b, ms) in enumerate(pending):
+            text, shifted = _assemble(b["header"], ms)
+            stmts = [c["stmt"] for m in ms for c in m["calls"]]
+            cases.append({"id": "%s_r%d_%d" % (b["id"], level, k), "diags": True,
+                          "files": {"main.abra": text + "\n".join(stmts) + "\n"}})
+            metas.append(shifted)
+        obs, w = vlib.run_harness(cases, wd, name="%s_%d" % (name, level), timeout=60)
+        wall += w
+        n_files += len(cases)
+        nxt = []
+        for (b, ms), shifted, c, o in zip(pending, metas, cases, obs):
+            lines = (o.get("out") or "").split("\n")
+            n = sum(len(m["calls"]) for m in ms)
+            if o.get("compile") == "ok" and o.get("status") == "done" and len(lines) == n + 1 and lines[-1] == "":
+                k = 0
+                for m in ms:
+                    for cl in m["calls"]:
+                        rows.append((b, m, cl, lines[k], "done"))
+                        k += 1
+                continue
+            bad = _offenders(shifted, c["files"]["main.abra"], o) if o.get("compile") == "diag" else None
+            if bad:
+                rejected += [(b, m) for m in ms if m["g"] in bad]
+                rest = [m for m in ms if m["g"] not in bad]
+                if rest:
+                    nxt.append((b, rest))
+            elif len(ms) > 1:
+                nxt += [(b, part) for part in _split(ms)]
+            else:
+                n_single += 1
+                rows += _run_single(b, ms[0], wd, name)
+        pending = nxt
+        level += 1
+    return rows, rejected, {"run_files": n_files, "run_wall_s": round(wall, 1), "run_split_levels": max(level - 1, 0),
+                            "matches_run_call_by_call": n_single}
 
 
-def _accepted(r):
+def _offenders(shifted, text, o):
+    """the matches a compile diagnostic points into (by the line tables); None if some diagnostic points elsewhere"""
+    diags = o.get("diags")
+    if not isinstance(diags, list) or not diags:
+        return None
+    bad = set()
+    for d in diags:
+        if d.get("file") != "main.abra":
+            return None
+        ln = line_of(text, d["start"])
+        hit = [m["g"] for m in shifted if m["line"] - 1 <= ln <= m["line"] + len(m["arms"]) + 2]
+        if not hit:
+            return None
+        bad.add(hit[0])
+    return bad
+
+
+def _run_single(b, m, wd, name):
+    """one match alone: first through the checker (status `notaccepted:...` if it does not accept the match: not a
+    run-time matter), then one program per call"""
+    text = "\n".join(b["header"] + m["fn"]) + "\n"
+    cases = [{"id": "%s_%s_chk" % (b["id"], m["g"]), "mode": "check", "files": {"main.abra": text}}]
+    cases += [{"id": "%s_%s_%d" % (b["id"], m["g"], j), "files": {"main.abra": text + c["stmt"] + "\n"}}
+              for j, c in enumerate(m["calls"])]
+    obs, _ = vlib.run_harness(cases, wd, name=name + "_single", timeout=60)
+    if obs[0].get("check") != "ok":
+        return [(b, m, c, None, "notaccepted:" + str(obs[0].get("check"))) for c in m["calls"]]
+    rows = []
+    for c, o in zip(m["calls"], obs[1:]):
+        st = o.get("status") if o.get("compile") == "ok" else "compile:" + str(o.get("compile"))
+        out = o.get("out") or ""
+        line = out[:-1] if out.endswith("\n") and out.count("\n") == 1 else None
+        if st == "done" and line is None:
+            st = "output:" + out[:80]
+        rows.append((b, m, c, line if st == "done" else None, st))
+    return rows
+
+
+def accepted(r):
     return r is not None and "anomaly" not in r and not r["nonexh"] and not r["redundant"]
-
-
-def _run_case(cid, header, ms):
-    lines = list(header)
-    for m in ms:
-        lines += m["fn"]
-    for m in ms:
-        lines += [c["stmt"] for c in m["calls"]]
-    return {"id": cid, "files": {"main.abra": "\n".join(lines) + "\n"}}
 
 
 # ------------------------------------------------------------------ evidence helpers
@@ -359,6 +426,26 @@ def _hist(it):
 def sample_match(b, m):
     return {"id": "%s/m%s" % (b["id"], m["g"]), "type": m["tyname"], "arms": m["armstxt"], "fn": m["fn"],
             "expect": {"exhaustive": m["exhaustive"], "redundant": m["redundant"]}}
+
+
+class Limiter:
+    """file at most `cap` findings per key (each finding writes a replay file); count all of them"""
+
+    def __init__(self, rep, cap=3):
+        self.rep, self.cap, self.counts = rep, cap, {}
+
+    def finding(self, key, case, obs, mism, what):
+        n = self.counts.get(key, 0)
+        self.counts[key] = n + 1
+        if n < self.cap:
+            self.rep.finding(key, case, obs, mism, what)
+
+    def summary(self):
+        fam = {}
+        for k, n in self.counts.items():
+            f = "|".join(k.split("|")[:3]) if k.count("|") <= 2 else "|".join(k.split("|")[:2]) + "|..."
+            fam[f] = fam.get(f, 0) + n
+        return fam
 
 
 def clean_big_dirs(wd):
